@@ -99,11 +99,17 @@ class Sched:
                 return t
         return None
 
+    def park(self):
+        """A run that is being abandoned (deadlock / hang): this thread must never run
+        cache code again.  Raising out of a trace callback crashes CPython 3.12.1
+        (segfault seen), so the thread simply sleeps for ever; it is a daemon."""
+        while True:
+            threading.Event().wait(3600)
+
     def wait(self, me):
-        if not self.sems[me].acquire(timeout=WAIT_S * 4):
-            raise Abort()
+        self.sems[me].acquire()
         if self.aborting:
-            raise Abort()
+            self.park()
 
     def switch(self, me, to):
         self.switches += 1
@@ -116,7 +122,7 @@ class Sched:
             self.status = status
             self.aborting = True
             self.main_sem.release()
-        raise Abort()
+        self.park()
 
     def block(self, me):
         if me < 0:
@@ -201,13 +207,10 @@ class Sched:
         if not self.main_sem.acquire(timeout=WAIT_S):
             self.status = "hang"
         if self.status != "done":
-            self.aborting = True
-        self.aborting = self.aborting or self.status != "done"
-        if self.aborting:
-            for s in self.sems:
-                s.release()
-        for t in threads:
-            t.join(timeout=2.0)
+            self.aborting = True          # the threads of this run stay parked (daemons)
+        else:
+            for t in threads:
+                t.join(timeout=2.0)
         return self.status
 
 
